@@ -21,10 +21,24 @@ TLC also checks on the recorded inputs that they are closed and consistently wou
 additivity over bodies, direct tetrahedron formula, parallel-axis + rotation law against the
 definition of the frame inertia).
 
+Audit families (block "audit", both tiers; see `audit_items`): the same lattice surfaces handed over
+in another unit of length and about another origin ((S + org) * sc with sc from 2^-30 .. 2^30 and
+decimal / non-dyadic factors: "all real vertex coordinates"; the results are read back in the lattice
+unit, the two laws this uses are RefLaws of the module), frames with rational rotations (integer
+quaternions of norm^2 3 and 5) and half / quarter lattice origins, inertia.transform_inertia called
+directly (3x3 and 4x4, with and without parallel axis), overrides that ARE the centre of mass (the
+tensor is then decided), other containers / dtypes / options reaching the same code (lists, float32,
+integer and read-only / strided arrays, `crosses=`, `skip_inertia=`, integer / list vertices and
+faces, process=True, list / tuple / integer overrides, integer / numpy densities, density 0 and
+large / small ones), histories on one mesh object (values read before density / override are set,
+set twice, set again to the same value, copy / deepcopy, frame inertia read first) and random voxel
+solids (any genus, cavities, several bodies, non-manifold contacts).
+
 quick is a regression screen (origin slice of the {0,1,2}^12 grid + seeded points of
 {0..3}^12 + composite surfaces); thorough covers the unisolvent grid {0..3}^12 up to symmetry
 (see `unisolvence_note` in the evidence) block by block.
 """
+import copy
 import itertools
 import math
 import sys
@@ -53,6 +67,11 @@ MEANING = {
     "frame_inertia_integral": "inertia about frame (R, t) equals the second-moment integrals in frame coordinates "
                               "(parallel-axis and rotation law)",
     "frame_inertia_reported_law": "frame inertia equals R^T (I + m M(t - c)) R of the reported I, m, c",
+    "inertia_true_override": "the override given is the true centre of mass, so the inertia tensor must be the "
+                                    "one about the centre of mass",
+    "rotated_body_inertia": "inertia.transform_inertia(R, I) equals the central tensor of the solid rotated by R",
+    "rotated_frame_at_center": "inertia.transform_inertia(R, I, parallel_axis=True, mass) with a 3x3 R equals the "
+                               "central tensor expressed in the axes of frame R",
 }
 
 # densities dn/dd (dd a power of two: exact as a float); 1/1 on the mesh route = default left untouched
@@ -60,6 +79,27 @@ DENS = [(1, 1), (2, 1), (3, 1), (1, 2), (5, 4), (7, 1), (1, 1), (3, 2), (10, 1),
 # twice the overriding centre of mass (integer and half-integer centres)
 OVERRIDES2 = [(0, 0, 0), (2, 2, 2), (1, 3, -2), (-3, 0, 5), (4, -4, 1), (1, 1, 1)]
 FRAME_T = [(0, 0, 0), (1, 0, 0), (0, -1, 2), (2, 1, -1), (-1, -2, -3), (3, 3, 3), (0, 2, 0), (-2, 0, 1)]
+
+
+# unit of length handed to the implementation: sc = sn / sd (numbers < 2^31: they travel through JSON)
+SCALES = [(1, 2 ** 30), (1, 2 ** 20), (1, 2 ** 14), (1, 2 ** 10), (1, 16), (16, 1), (2 ** 10, 1), (2 ** 20, 1),
+          (2 ** 30, 1), (1, 10 ** 6), (1, 10 ** 5), (1, 10 ** 4), (1, 1000), (1, 100), (1, 10), (1, 3), (10, 1),
+          (1000, 1), (10 ** 6, 1), (7, 1)]
+# origin handed to the implementation (|org| <= 128: the cancellation in the second moments stays below 1e-10)
+ORGS = [(100, -100, 64), (-64, 17, 100), (37, 50, -81), (128, 128, 128), (-100, -100, -100), (0, 0, 127)]
+# (origin, unit) pairs: far origins with dyadic units (the arithmetic stays exact up to the divisions), nearer
+# ones with units that make every coordinate inexact (error of the second moments ~ (distance / size)^3 ulp)
+FAR = [(org, sc) for org in ORGS for sc in ((1, 1), (1, 256), (8, 1))] \
+    + [(org, sc) for org in [(16, -12, 9), (-10, 7, 15), (-16, -16, -16), (11, 13, -14)]
+       for sc in ((1, 10), (3, 1), (1, 1000), (1000, 1))]
+SMALL_DENS = [(1, 1), (2, 1), (3, 1), (1, 2), (3, 2), (1, 1), (1, 4)]
+EXTREME_DENS = [(0, 1), (1000, 1), (4096, 1), (1, 1024), (3, 1024), (0, 1), (7800, 1)]
+TRI_VARIANTS = ["list", "tuple", "f32", "i64", "i32", "i16", "i8", "u8", "f16", "F", "nc", "ro", "tracked", "crosses",
+                "crosses_area", "skip", "dint", "dnp32"]
+MESH_VARIANTS = ["vi64", "vf32", "vlist", "fi32", "fu8", "flist", "proc", "dint", "dnp32", "vi64_fi32"]
+OC_VARIANTS = ["list", "tuple", "int", "arr", "f32"]
+HISTORIES = ["read_then_set", "set_twice", "interleaved", "reset_same", "override_first", "copy", "copy_cold",
+             "deepcopy", "frame_first", "props_first"]
 
 
 def rotations():
@@ -77,6 +117,28 @@ def rotations():
 
 
 ROT = rotations()
+
+
+def quaternion_rotations():
+    """(R, rd) with R / rd a rotation with rational, non-lattice entries: from integer quaternions of
+    squared norm 3 and 5 (inputs only: TLC checks R R^T = rd^2 E and det R = rd^3 on every record)."""
+    out = {}
+    for w, x, y, z in itertools.product(range(-2, 3), repeat=4):
+        n = w * w + x * x + y * y + z * z
+        if n not in (3, 5):
+            continue
+        R = [[w * w + x * x - y * y - z * z, 2 * (x * y - w * z), 2 * (x * z + w * y)],
+             [2 * (x * y + w * z), w * w - x * x + y * y - z * z, 2 * (y * z - w * x)],
+             [2 * (x * z - w * y), 2 * (y * z + w * x), w * w - x * x - y * y + z * z]]
+        out[(n, tuple(map(tuple, R)))] = (R, n)
+    return [out[k] for k in sorted(out)]
+
+
+QROT = quaternion_rotations()
+
+
+def frame(R, rd, t, td):
+    return {"R": [list(r) for r in R], "rd": int(rd), "t": [int(x) for x in t], "td": int(td)}
 
 
 # ------------------------------------------------------------------ input surfaces
@@ -245,20 +307,34 @@ class Snapper:
         return [self(name, x, K) for x in a]
 
 
-def project(sn, it, volume, mass, density, center, inertia, area_faces, area, frames):
-    """Project one API's results to the integers described in MassProps.tla."""
+def project(sn, it, volume, mass, density, center, inertia, area_faces, area, frames, xfs):
+    """Project one API's results to the integers described in MassProps.tla.  The implementation was
+    handed (S + org) * sc; every value is first read back in the lattice unit about the lattice origin."""
     dn, dd = it["dn"], it["dd"]
     ovr = it["ovr"]
-    o = {}
+    sc = it["sc"][0] / it["sc"][1]
+    org = np.array(it["org"], dtype=np.float64)
+    o = {"tiny": bool(abs(float(volume)) < 1e-13)}
+    volume = float(volume) / sc ** 3
+    mass = float(mass) / sc ** 3
+    center = np.asarray(center, dtype=np.float64)
+    if center.shape == (3,):
+        center = center / sc - org
+    inertia = None if inertia is None else np.asarray(inertia, dtype=np.float64) / sc ** 5
     o["vol6"] = sn("volume", volume, 6)
     o["mass6"] = sn("mass", mass, 6 * dd)
     o["dens"] = sn("density", density, dd)
     v6 = o["vol6"]
     o["ilat"] = True
+    if inertia is None:
+        if not sn.off:
+            sn.off = "inertia_missing"
+        inertia = np.zeros((3, 3))
     if ovr:
         o["cm"] = sn.vec("center_mass", center, 2)
-        # what the inertia tensor is under an override is not decided by the property; it is
-        # only used (when it happens to lie on the lattice) in the frame law on reported values
+        # what the inertia tensor is under an override is not decided by the property (unless the override
+        # is the true centre, which TLC decides); otherwise it is only used (when it happens to lie on the
+        # lattice) in the frame law on reported values
         tmp = Snapper()
         o["I"] = tmp.mat("inertia", inertia, 240 * dd)
         o["ilat"] = tmp.off == ""
@@ -269,68 +345,246 @@ def project(sn, it, volume, mass, density, center, inertia, area_faces, area, fr
         tmp = Snapper()     # centre of an empty solid: unconstrained
         o["cm"] = tmp.vec("center_mass", center, 1)
         o["I"] = sn.mat("inertia", inertia, 120 * dd)
-    o["crs2"] = [sn("area_faces", (2.0 * float(a)) ** 2, 1) for a in np.asarray(area_faces).reshape(-1)]
+    o["crs2"] = [sn("area_faces", (2.0 * float(a) / sc ** 2) ** 2, 1) for a in np.asarray(area_faces).reshape(-1)]
     # total area: only Trimesh.area reports one (triangles.area is per face)
-    a2 = None if area is None else Snapper().try_snap(2.0 * float(area), 1)
+    a2 = None if area is None else Snapper().try_snap(2.0 * float(area) / sc ** 2, 1)
     o["hasarea"] = area is not None
     o["area2ok"] = a2 is not None
     o["area2"] = a2 if a2 is not None else 0
-    o["frames"] = [{"R": R, "t": list(t), "I": sn.mat("frame_inertia", F, 240 * dd)} for R, t, F in frames]
+    o["frames"] = [dict(fr, I=sn.mat("frame_inertia", np.asarray(F, dtype=np.float64) / sc ** 5,
+                                     240 * dd * fr["rd"] ** 2 * fr["td"] ** 2)) for fr, F in frames]
+    o["xf"] = []
+    if not ovr and v6 != 0:
+        for R, A, P in xfs:
+            o["xf"].append({"R": R, "A": sn.mat("transform_inertia", np.asarray(A, dtype=np.float64) / sc ** 5, 480 * v6 * dd),
+                            "P": sn.mat("transform_inertia_parallel", np.asarray(P, dtype=np.float64) / sc ** 5,
+                                        480 * v6 * dd)})
     o["off"] = sn.off
     return o
+
+
+def exact_as(A, dtype):
+    """A cast to dtype when that loses nothing, else None."""
+    with np.errstate(all="ignore"):
+        B = A.astype(dtype)
+    return B if np.array_equal(B.astype(np.float64), A) else None
+
+
+def tri_input(trimesh, T, tv):
+    """The triangles in another container / dtype / memory layout holding exactly the same numbers
+    (None when this variant cannot hold them)."""
+    if tv in ("", "crosses", "crosses_area", "skip", "dint", "dnp32"):
+        return T.copy()
+    if tv == "list":
+        return T.tolist()
+    if tv == "tuple":
+        return tuple(tuple(tuple(p) for p in f) for f in T.tolist())
+    if tv in ("f32", "f16", "i64", "i32", "i16", "i8", "u8"):
+        return exact_as(T, {"f32": np.float32, "f16": np.float16, "i64": np.int64, "i32": np.int32, "i16": np.int16,
+                            "i8": np.int8, "u8": np.uint8}[tv])
+    if tv == "F":
+        return np.asfortranarray(T)
+    if tv == "nc":
+        big = np.zeros((len(T), 3, 6), dtype=np.float64)
+        big[:, :, ::2] = T
+        return big[:, :, ::2]
+    if tv == "ro":
+        A = T.copy()
+        A.setflags(write=False)
+        return A
+    if tv == "tracked":
+        return trimesh.caching.tracked_array(T.copy())
+    raise MachineryError("unknown triangle variant " + tv)
+
+
+def oc_input(oc, ov):
+    """The centre-of-mass override in another container holding the same numbers."""
+    if oc is None:
+        return None
+    if ov == "list":
+        return oc.tolist()
+    if ov == "tuple":
+        return tuple(oc.tolist())
+    if ov == "int":
+        return exact_as(oc, np.int64) if exact_as(oc, np.int64) is not None else oc.copy()
+    if ov == "f32":
+        return exact_as(oc, np.float32) if exact_as(oc, np.float32) is not None else oc.copy()
+    return oc.copy()
+
+
+def density_input(rho, dv):
+    if dv == "dint" and float(rho).is_integer():
+        return int(rho)
+    if dv == "dnp32" and float(np.float32(rho)) == rho:
+        return np.float32(rho)
+    return rho
+
+
+def read_all(m, M):
+    return (m.volume, m.mass, m.density, m.center_mass.copy(), m.moment_inertia.copy(), m.area_faces.copy(),
+            m.area, m.moment_inertia_frame(M))
 
 
 def record(trimesh, it):
     tri = it["tri"]
     dn, dd = it["dn"], it["dd"]
     rho = dn / dd
-    T = np.array(tri, dtype=np.float64)
-    oc = None if not it["ovr"] else np.array(it["oc2"], dtype=np.float64) / 2.0
+    var = it["var"]
+    sc = it["sc"][0] / it["sc"][1]
+    org = np.array(it["org"], dtype=np.float64)
+    T = (np.array(tri, dtype=np.float64) + org) * sc           # what the implementation is handed
+    oc = None if not it["ovr"] else (np.array(it["oc2"], dtype=np.float64) / 2.0 + org) * sc
     rec = {"id": it["id"], "exc": "", "kind": it["kind"], "name": it["name"], "tri": tri, "dn": dn, "dd": dd,
            "ovr": bool(it["ovr"]), "oc2": list(it["oc2"]), "nb": it["nb"], "lt": list(it["lt"]),
-           "laws": bool(it["laws"]), "obs": []}
+           "laws": bool(it["laws"]), "sc": list(it["sc"]), "org": list(it["org"]), "var": var, "fam": it["fam"],
+           "obs": []}
     raw = []
-    try:
-        if API_TRI in it["apis"]:
-            default = (dn, dd) == (1, 1) and it["id"] % 2 == 0      # density=None must mean 1
-            mp = trimesh.triangles.mass_properties(T.copy(), density=None if default else rho,
-                                                   center_mass=None if oc is None else oc.copy(),
-                                                   skip_inertia=False)
-            af = trimesh.triangles.area(T.copy())
-            raw.append((API_TRI, (mp.volume, mp.mass, mp.density, mp.center_mass, mp.inertia, af, None, [])))
-        if API_MESH in it["apis"]:
-            index = {}
-            verts, faces = [], []
-            for f in tri:
-                row = []
-                for p in f:
-                    key = tuple(p)
-                    if key not in index:
-                        index[key] = len(verts)
-                        verts.append(p)
-                    row.append(index[key])
-                faces.append(row)
-            m = trimesh.Trimesh(vertices=np.array(verts, dtype=np.float64), faces=np.array(faces, dtype=np.int64),
-                                process=False)
-            if len(m.faces) != len(tri) or len(m.vertices) != len(verts):
-                raise MachineryError("Trimesh(process=False) changed the input")
-            if (dn, dd) != (1, 1) or it["id"] % 2 == 1:
-                m.density = rho
+    where = [""]
+
+    def tri_route():
+        tv = var.get("tri", "")
+        where[0] = API_TRI + ("/" + tv if tv else "") + ("/oc_" + var["oc"] if var.get("oc") and oc is not None else "")
+        Tin = tri_input(trimesh, T, tv)
+        if Tin is None:                     # this container cannot hold the numbers: plain array
+            tv, Tin = "", T.copy()
+            where[0] = API_TRI
+        default = (dn, dd) == (1, 1) and it["id"] % 2 == 0      # density=None must mean 1
+        kw = {"density": None if default else density_input(rho, tv),
+              "center_mass": oc_input(oc, var.get("oc", "")), "skip_inertia": False}
+        if tv in ("crosses", "crosses_area"):
+            kw["crosses"] = trimesh.triangles.cross(T.copy())
+        mp = trimesh.triangles.mass_properties(Tin, **kw)
+        inertia = mp.inertia
+        if tv == "skip":                    # volume / mass / centre from the call without the tensor
+            mp = trimesh.triangles.mass_properties(tri_input(trimesh, T, tv), **dict(kw, skip_inertia=True))
+        if tv == "crosses_area":
+            af = trimesh.triangles.area(crosses=trimesh.triangles.cross(T.copy()))
+        else:
+            af = trimesh.triangles.area(tri_input(trimesh, T, tv))
+        raw.append((where[0], (mp.volume, mp.mass, mp.density, mp.center_mass, inertia, af, None, [], [])))
+
+    def mesh_route():
+        mv, hist = var.get("mesh", ""), var.get("hist", "")
+        ocm = var.get("ocm", var.get("oc", ""))
+        where[0] = API_MESH + ("/" + mv if mv else "") + ("/" + hist if hist else "") \
+            + ("/oc_" + ocm if ocm and oc is not None else "")
+        index = {}
+        verts, faces = [], []
+        for f in tri:
+            row = []
+            for p in f:
+                key = tuple(p)
+                if key not in index:
+                    index[key] = len(verts)
+                    verts.append(p)
+                row.append(index[key])
+            faces.append(row)
+        Vin = (np.array(verts, dtype=np.float64) + org) * sc
+        Fin = np.array(faces, dtype=np.int64)
+        if mv in ("vi64", "vi64_fi32"):
+            Vin = Vin if exact_as(Vin, np.int64) is None else exact_as(Vin, np.int64)
+        if mv == "vf32":
+            Vin = Vin if exact_as(Vin, np.float32) is None else exact_as(Vin, np.float32)
+        if mv == "vlist":
+            Vin = Vin.tolist()
+        if mv in ("fi32", "vi64_fi32"):
+            Fin = Fin.astype(np.int32)
+        if mv == "fu8":
+            Fin = Fin.astype(np.uint8)
+        if mv == "flist":
+            Fin = Fin.tolist()
+        m = trimesh.Trimesh(vertices=Vin, faces=Fin, process=(mv == "proc"))
+        if len(m.faces) != len(tri) or len(m.vertices) != len(verts):
+            raise MachineryError("Trimesh(process=%s) changed the input" % (mv == "proc"))
+        setdens = (dn, dd) != (1, 1) or it["id"] % 2 == 1 or hist != ""
+        rho_in = density_input(rho, mv)
+        oc_in = oc_input(oc, ocm)
+        frames = []
+        mats = []
+        for fr in it["frames"]:
+            M = np.eye(4)
+            M[:3, :3] = np.array(fr["R"], dtype=np.float64) / fr["rd"]
+            M[:3, 3] = (np.array(fr["t"], dtype=np.float64) / fr["td"] + org) * sc
+            mats.append(M)
+        M0 = mats[0] if mats else np.eye(4)
+
+        def set_final():
+            if setdens:
+                m.density = rho_in
             if oc is not None:
-                m.center_mass = oc.copy()
-            frames = []
-            for ri, t in it["frames"]:
-                M = np.eye(4)
-                M[:3, :3] = np.array(ROT[ri], dtype=np.float64)
-                M[:3, 3] = t
-                frames.append((ROT[ri], t, m.moment_inertia_frame(M)))
-            raw.append((API_MESH, (m.volume, m.mass, m.density, m.center_mass, m.moment_inertia,
-                                   m.area_faces, m.area, frames)))
-    except MachineryError:
-        raise
-    except Exception as e:  # noqa - the implementation raised on a valid closed surface
-        rec["exc"] = type(e).__name__
-        return rec
+                m.center_mass = copy.deepcopy(oc_in)
+
+        # ---- the history: what is read / set on this object before the values that are judged
+        if hist in ("", "frame_first", "props_first"):
+            set_final()
+        elif hist == "read_then_set":       # everything read at the defaults, then density / override set
+            read_all(m, M0)
+            set_final()
+        elif hist == "set_twice":           # other values set and read first
+            m.density = 3.0 * rho + 1.0
+            if oc is not None:
+                m.center_mass = oc + sc
+            read_all(m, M0)
+            set_final()
+        elif hist == "interleaved":         # density set, read, override set
+            if setdens:
+                m.density = rho_in
+            read_all(m, M0)
+            if oc is not None:
+                m.center_mass = copy.deepcopy(oc_in)
+        elif hist == "reset_same":          # the same values assigned again after a read
+            set_final()
+            read_all(m, M0)
+            set_final()
+        elif hist == "override_first":      # override before density, a read in between
+            if oc is not None:
+                m.center_mass = copy.deepcopy(oc_in)
+            read_all(m, M0)
+            if setdens:
+                m.density = rho_in
+        elif hist in ("copy", "deepcopy"):  # a copy made after the values were read
+            set_final()
+            read_all(m, M0)
+            m = m.copy() if hist == "copy" else copy.deepcopy(m)
+        elif hist == "copy_cold":           # a copy made before anything was read
+            set_final()
+            m = m.copy()
+        else:
+            raise MachineryError("unknown history " + hist)
+        if hist == "frame_first":
+            frames = [(fr, m.moment_inertia_frame(M)) for fr, M in zip(it["frames"], mats)]
+        if hist == "props_first":
+            props = m.mass_properties
+            got = (props["volume"], props["mass"], props["density"], props["center_mass"], props["inertia"])
+        else:
+            got = (m.volume, m.mass, m.density, m.center_mass, m.moment_inertia)
+        if hist != "frame_first":
+            frames = [(fr, m.moment_inertia_frame(M.tolist() if mv == "vlist" else M))
+                      for fr, M in zip(it["frames"], mats)]
+        xfs = []
+        for n, ri in enumerate(it["xf"]):
+            R = np.array(ROT[ri], dtype=np.float64)
+            M = np.eye(4)
+            M[:3, :3] = R
+            M[:3, 3] = [5.0, -7.0, 11.0]        # the translation of a 4x4 transform must not matter
+            A = trimesh.inertia.transform_inertia(M if (it["id"] + n) % 2 else R, got[4])
+            P = trimesh.inertia.transform_inertia(transform=R, inertia_tensor=got[4], parallel_axis=True,
+                                                  mass=got[1])
+            xfs.append((ROT[ri], A, P))
+        raw.append((where[0], got + (m.area_faces, m.area, frames, xfs)))
+
+    # each API on its own: an exception raised by one must not hide what the other reports
+    for api, route in ((API_TRI, tri_route), (API_MESH, mesh_route)):
+        if api not in it["apis"]:
+            continue
+        try:
+            route()
+        except MachineryError:
+            raise
+        except Exception as e:  # noqa - the implementation raised on a valid closed surface
+            if not rec["exc"]:
+                rec["exc"] = type(e).__name__
+                rec["where"] = where[0]
     for api, vals in raw:
         o = project(Snapper(), it, *vals)
         o["api"] = api
@@ -371,14 +625,19 @@ class Builder:
         return items
 
     def add(self, kind, name, tri, nb=None, nframes=1, laws=True, apis=(API_TRI, API_MESH), frames=None,
-            force=None):
+            force=None, sc=(1, 1), org=(0, 0, 0), var=None, xf=None, fam=None):
         dn, dd, ovr, oc2, fr, lt = variants(self.k, nframes)
+        if xf is None:      # inertia.transform_inertia called directly on every third full record
+            xf = [(self.k * 11 + 3) % 24] if API_MESH in apis and self.k % 3 == 0 else []
         self.k += 1
         if force:
             dn, dd, ovr, oc2 = force
+        fr = [frame(ROT[ri], 1, t, 1) for ri, t in (fr if frames is None else frames)] \
+            if frames is None or (frames and not isinstance(frames[0], dict)) else frames
         self.items.append({"id": len(self.items), "kind": kind, "name": name, "tri": tri, "dn": dn, "dd": dd,
-                           "ovr": ovr, "oc2": oc2, "frames": fr if frames is None else frames,
-                           "nb": nb or [len(tri)], "lt": lt, "laws": laws, "apis": apis})
+                           "ovr": ovr, "oc2": oc2, "frames": fr, "xf": list(xf),
+                           "nb": nb or [len(tri)], "lt": lt, "laws": laws, "apis": apis,
+                           "sc": list(sc), "org": list(org), "var": dict(var or {}), "fam": fam or ""})
         self.fam[name] = self.fam.get(name, 0) + 1
 
     def lean(self, kind, name, tri, n, nb=None, every=16):
@@ -442,6 +701,118 @@ def sampled_items(B, tier, rs, limit=None):
             yield B.take()
 
 
+# 2 x centre of mass of the named shapes whose centre follows from the symmetry of their construction
+# (an input: TLC checks on every record of kind "ovrtrue" that it is the centre of mass)
+CENTRE2 = {"cube": (1, 1, 1), "cube_altdiag": (1, 1, 1), "box_2x1x3": (2, 1, 3), "box_1x3x2_alt": (1, 3, 2),
+           "octahedron": (0, 0, 0), "octahedron_2_1_3": (0, 0, 0), "torus_ring_3x3x1": (3, 3, 1),
+           "torus_ring_scaled": (3, 6, 1), "edge_touching_cubes": (2, 2, 1), "corner_touching_cubes": (2, 2, 2),
+           "two_cubes_apart": (3, 1, 2), "overlapping_cubes": (3, 3, 3), "coincident_shells": (2, 2, 2),
+           "hollow_cube_two_shells": (3, 3, 3), "hollow_3x3x3_voxels": (3, 3, 3), "inside_out_cube": (1, 1, 1),
+           "box_3x2x1": (3, 2, 1), "plus_sign": (3, 3, 1), "slab_2x2x1": (2, 2, 1), "torus_ring_tall": (3, 3, 2)}
+
+
+def audit_items(B, tier, rs):
+    """Regions of the quantifier the lattice families above do not reach (found by the coverage audit):
+    other units of length and origins, rational frames, overrides that are the true centre, other
+    containers / dtypes / options, histories on one object, random voxel solids, extreme densities."""
+    big = tier == "thorough"
+    shapes = named_shapes(tier)
+    pts3 = [list(p) for p in itertools.product(range(3), repeat=3)]
+
+    def tets(n, hi=4, lo=0):
+        P = rs.randint(lo, hi, size=(n, 4, 3))
+        return [tet_faces(*P[k].tolist()) for k in range(n)]
+
+    # (A) another unit of length: (S) * sc, every scale on every named shape, seeded tetrahedra
+    offs = [(1, 0, 0), (-1, -2, 0), (2, 2, 1)] if big else [(1, 0, 0)]
+    for name, tri, nb in shapes:
+        for off in offs:
+            for sc in SCALES:
+                B.add("surface", name, shift(tri, off), nb=nb, nframes=1, sc=sc, fam="scaled")
+    for n, tri in enumerate(tets(8000 if big else 720)):
+        B.add("tet", "tet_grid4_scaled", tri, nframes=1, sc=SCALES[n % len(SCALES)], laws=(n % 8 == 0), fam="scaled")
+    for n, tri in enumerate(tets(2000 if big else 200)):   # two bodies of very different size in one unit
+        B.add("surface", "two_tets_scaled", tri + shift(REF_TET, (3, 3, 3)), nb=[4, 4], nframes=1,
+              sc=SCALES[(n * 7) % len(SCALES)], laws=(n % 8 == 0), fam="scaled")
+    # (B) another origin (and unit): (S + org) * sc
+    for name, tri, nb in shapes:
+        for j, (org, sc) in enumerate(FAR):
+            if big or j % 4 == len(name) % 4:
+                B.add("surface", name, tri, nb=nb, nframes=1, sc=sc, org=org, fam="far")
+    for n, tri in enumerate(tets(3600 if big else 360)):
+        org, sc = FAR[n % len(FAR)]
+        B.add("tet", "tet_grid4_far", tri, nframes=1, sc=sc, org=org, laws=(n % 8 == 0), fam="far")
+    # (C) frames off the lattice: rational rotations, half / quarter lattice origins (small solids and small
+    #     densities: TLC evaluates the definition on the surface in rd * td times the frame coordinates)
+    small = [(nm, tri, nb) for nm, tri, nb in shapes if nm in ("cube", "cube_altdiag", "octahedron", "box_2x1x3")]
+    P = rs.randint(0, 3, size=(4000 if big else 600, 4, 3))
+    bases = [("tet", "tet_grid3_qframes", tet_faces(*P[k].tolist()), None) for k in range(len(P))]
+    bases += [("surface", nm, tri, nb) for nm, tri, nb in small for _ in range(40 if big else 10)]
+    for n, (kind, name, tri, nb) in enumerate(bases):
+        R3, R5 = QROT[n % 16], QROT[16 + n % 24]
+        t = rs.randint(-1, 2, size=(2, 3)).tolist()
+        th = (2 * rs.randint(-2, 2, size=3) + 1).tolist()          # odd / 2
+        tq = rs.randint(-5, 6, size=3).tolist()                     # any / 4
+        dn, dd = SMALL_DENS[n % len(SMALL_DENS)]
+        # (the parallel-axis law of the reference is evaluated on the tetrahedra only: 4 D q^5 J overflows beyond)
+        B.add(kind, name, tri, nb=nb, force=(dn, dd, False, (0, 0, 0)), laws=(kind == "tet" and n % 4 == 0),
+              apis=(API_MESH,),
+              frames=[frame(R3[0], R3[1], t[0], 1), frame(R5[0], R5[1], t[1], 1),
+                      frame(ROT[(n * 5) % 24], 1, th, 2), frame(ROT[(n * 7 + 1) % 24], 1, tq, 4)], fam="qframes")
+    # (E) the override given is the centre of mass itself: then the tensor is decided
+    sym = [(nm, tri, nb, CENTRE2[nm]) for nm, tri, nb in shapes if nm in CENTRE2]
+    offs = [(0, 0, 0), (1, 0, 0), (-1, -2, 0), (0, 1, -3), (-2, -1, -1), (2, 2, 1)]
+    n = 0
+    for name, tri, nb, c2 in sym:
+        for off in offs:
+            for _ in range(6 if big else 2):
+                dn, dd = DENS[n % len(DENS)]
+                oc2 = tuple(c2[a] + 2 * off[a] for a in range(3))
+                B.add("ovrtrue", name, shift(tri, off), nb=nb, nframes=2, force=(dn, dd, True, oc2), xf=[],
+                      var={"ocm": OC_VARIANTS[n % len(OC_VARIANTS)] if n % 3 == 0 else "",
+                           "hist": HISTORIES[n % len(HISTORIES)] if n % 3 == 1 else ""}, fam="ovrtrue")
+                n += 1
+    # (F) other containers / dtypes / options holding the same numbers
+    bases = [("surface", nm, shift(tri, (1, 0, 0)), nb) for nm, tri, nb in shapes for _ in range(12 if big else 3)]
+    bases += [("tet", "tet_grid4_containers", tri, None) for tri in tets(3000 if big else 450)]
+    bases += [("tet", "tet_signed_containers", tri, None) for tri in tets(1000 if big else 100, hi=3, lo=-2)]
+    for n, (kind, name, tri, nb) in enumerate(bases):
+        dn, dd = DENS[n % len(DENS)]
+        ovr = n % 3 == 0
+        B.add(kind, name, tri, nb=nb, nframes=1, laws=False,
+              force=(dn, dd, ovr, OVERRIDES2[(n // 3) % len(OVERRIDES2)] if ovr else (0, 0, 0)),
+              var={"tri": TRI_VARIANTS[n % len(TRI_VARIANTS)], "mesh": MESH_VARIANTS[(n // 2) % len(MESH_VARIANTS)],
+                   "oc": OC_VARIANTS[(n // 3) % len(OC_VARIANTS)] if ovr else "",
+                   "ocm": OC_VARIANTS[(n // 3 + 2) % len(OC_VARIANTS)] if ovr else ""}, fam="containers")
+    # (G) histories on one mesh object: values read before / between the assignments, copies
+    bases = [("surface", nm, shift(tri, (-1, -2, 0)), nb) for nm, tri, nb in shapes
+             for _ in range(len(HISTORIES) * (3 if big else 1))]
+    bases += [("tet", "tet_grid4_histories", tri, None) for tri in tets(3000 if big else 400)]
+    for n, (kind, name, tri, nb) in enumerate(bases):
+        B.add(kind, name, tri, nb=nb, nframes=2, laws=False, apis=(API_MESH,),
+              var={"hist": HISTORIES[n % len(HISTORIES)]}, fam="histories")
+    # (H) random voxel solids: any genus, cavities, several bodies, edge / corner contacts
+    for n in range(1500 if big else 150):
+        dims = [(3, 3, 3), (4, 4, 2), (2, 3, 4)][n % 3]
+        keep = rs.rand(*dims) < (0.35, 0.5, 0.7)[(n // 3) % 3]
+        cells = [c for c in itertools.product(*(range(d) for d in dims)) if keep[c]]
+        if not cells:
+            cells = [(0, 0, 0)]
+        dn, dd = SMALL_DENS[n % len(SMALL_DENS)]
+        ovr = n % 5 == 3
+        B.add("surface", "voxels_random", shift(voxel_surface(cells, alt=n % 2), [(0, 0, 0), (1, 0, 0), (-1, -2, 0)][n % 3]),
+              nframes=2, force=(dn, dd, ovr, OVERRIDES2[n % len(OVERRIDES2)] if ovr else (0, 0, 0)), laws=(n % 4 == 0),
+              fam="voxels")
+    # (I) densities: zero, large, small
+    P = rs.randint(0, 3, size=(2100 if big else 280, 4, 3))
+    for n in range(len(P)):
+        dn, dd = EXTREME_DENS[n % len(EXTREME_DENS)]
+        ovr = n % 4 == 3
+        B.add("tet", "tet_grid3_densities", tet_faces(*P[n].tolist()), nframes=1, laws=False,
+              force=(dn, dd, ovr, OVERRIDES2[n % len(OVERRIDES2)] if ovr else (0, 0, 0)),
+              var={"tri": ("dint", "dnp32", "")[n % 3], "mesh": ("dnp32", "", "dint")[n % 3]}, fam="densities")
+
+
 def blocks(tier, B):
     """Yields (label, items); each block is recorded and validated on its own (bounded memory)."""
     rs = np.random.RandomState(seed() + 303)
@@ -457,6 +828,8 @@ def blocks(tier, B):
             pass
         composite_items(B, tier, rs)
         yield "quick", B.take()
+        audit_items(B, tier, np.random.RandomState(seed() + 30303))
+        yield "audit", B.take()
         return
     LIMIT = 140000
     # (a) every 4-subset of {0..3}^3 in one fixed vertex order: C(64,4) = 635376
@@ -488,6 +861,8 @@ def blocks(tier, B):
     yield "sampled", B.take()
     composite_items(B, tier, rs)
     yield "composite", B.take()
+    audit_items(B, tier, np.random.RandomState(seed() + 30303))
+    yield "audit", B.take()
 
 
 def companions(B, cases):
@@ -497,6 +872,23 @@ def companions(B, cases):
         if c["name"] == "tet_grid4_subsets" and c["exc"] == "" and c["obs"][0]["vol6"] == 0:
             B.lean("tet", "flat_tet_grid4_plus_unit_tet", c["tri"] + REF_TET, 1, nb=[4, 4])
     return B.take()
+
+
+def deviation_of(c, clause):
+    """Predicates of the two findings of the coverage audit (attributed only if the lead lists them in
+    known_findings.jsonl; until then they are plain violations):
+    TinyVolumeCentreAtOrigin   |reported volume| < tol.zero = 1e-13, no override, first failing clause is the
+                               centre of mass (the implementation reports the origin instead)
+    OverrideSequenceRaises     triangles.mass_properties(center_mass=<list or tuple>) raises TypeError"""
+    api, _, cl = clause.rpartition(":")
+    if cl == "center_mass" and not c["ovr"]:
+        o = [o for o in c["obs"] if o["api"] == api]
+        if o and o[0]["tiny"] and all(x == 0 for x in o[0]["cm"]):
+            return "TinyVolumeCentreAtOrigin"
+    if clause == "raised_TypeError" and c.get("where", "").startswith(API_TRI) \
+            and c.get("where", "").endswith(("/oc_list", "/oc_tuple")):
+        return "OverrideSequenceRaises"
+    return None
 
 
 class Tally:
@@ -535,13 +927,18 @@ def main(argv):
         block_log.append({"block": label, "records": len(cases), "tlc_wall_s": round(wall, 1)})
         for cid, clause in sorted(rejects.items()):
             c = cases[cid]
-            detail = {"name": c["name"], "tri": c["tri"], "density": [c["dn"], c["dd"]],
+            detail = {"name": c["name"], "family": c["fam"], "tri": c["tri"], "density": [c["dn"], c["dd"]],
                       "center_mass_override_x2": c["oc2"] if c["ovr"] else None,
+                      "handed_over_as": "(tri + %s) * %d/%d" % (c["org"], c["sc"][0], c["sc"][1]),
+                      "variant": c["var"], "raised_in": c.get("where", ""),
                       "obs": [{k: v for k, v in o.items() if k != "crs2" or len(v) <= 12} for o in c["obs"]]}
             detail["meaning"] = MEANING.get(clause.split(":")[-1],
                                             "reported value is not on the lattice of exact values"
                                             if "offlattice" in clause else clause)
-            V.violation(clause, detail)
+            dev = deviation_of(c, clause)
+            T.add("rejected_as_" + (dev or "unexplained"))
+            T.add("rejected_in_" + (c["fam"] or "lattice_families"))
+            V.violation(clause, detail, dev)
         # ---- coverage, measured on what was really recorded
         T.add("states", states)
         T.add("records", len(cases))
@@ -551,22 +948,41 @@ def main(argv):
             T.add("laws", 1 if c["laws"] else 0)
             T.add("override", 1 if c["ovr"] else 0)
             T.note("densities", "%d/%d" % (c["dn"], c["dd"]))
+            if c["fam"]:
+                T.add("fam_" + c["fam"])
+                T.note("scales", tuple(c["sc"]))
+                T.note("origins", tuple(c["org"]))
+            if c["exc"]:
+                T.add("raised")
             if c["obs"]:
                 v6 = c["obs"][0]["vol6"]
                 T.add("nonzero" if v6 else "zero")
                 T.add("negative", 1 if v6 < 0 else 0)
-            for o in c["obs"]:
+                if c["fam"] == "voxels":
+                    T.note("voxel_faces", len(c["tri"]))
+            for o in ([] if c["exc"] else c["obs"]):      # TLC judges a record that raised by that alone
                 T.add("obs")
-                T.add("obs_" + o["api"])
+                T.add("obs_" + o["api"].split("/")[0])
+                for part in o["api"].split("/")[1:]:
+                    T.add("variant_" + o["api"].split("/")[0] + "/" + part)
                 T.add("faces", len(o["crs2"]))
+                T.add("tiny", 1 if o["tiny"] and o["vol6"] != 0 else 0)
+                # (by input, for the guard: what a broken implementation reports must not empty the family)
+                T.add("small_unit", 1 if c["sc"][0] * 20000 < c["sc"][1] else 0)
+                T.add("xf", len(o["xf"]))
                 # coverage only (not a verdict): reported doubled face areas all integers, i.e. the
                 # records on which TLC's total-area clause applies
                 if o["hasarea"] and all(x >= 0 and math.isqrt(x) ** 2 == x for x in o["crs2"]):
                     T.add("area_total")
                 for f in o["frames"]:
                     T.add("frames")
-                    T.note("rot", tuple(map(tuple, f["R"])))
-                    T.note("frame", (tuple(map(tuple, f["R"])), tuple(f["t"])))
+                    T.add("frames_rational_rotation", 1 if f["rd"] > 1 else 0)
+                    T.add("frames_fractional_origin", 1 if f["td"] > 1 else 0)
+                    if f["rd"] == 1:
+                        T.note("rot", tuple(map(tuple, f["R"])))
+                    else:
+                        T.note("qrot", tuple(map(tuple, f["R"])))
+                    T.note("frame", (tuple(map(tuple, f["R"])), f["rd"], tuple(f["t"]), f["td"]))
         small = [c for c in cases if len(c["tri"]) <= 8 and c["obs"]]
         if small and len(samples) < 4:
             samples += [small[len(small) // 3], small[-1]]
@@ -574,6 +990,24 @@ def main(argv):
     if n.get("records", 0) < 5000 or n.get("nonzero", 0) < n["records"] // 4 or n.get("negative", 0) < 100 \
             or len(T.sets.get("rot", ())) != 24 or n.get("area_total", 0) < 100 or n.get("override", 0) < 100:
         raise MachineryError("enumeration degenerate: %s" % json_counts(n))
+    # the audit families must really have been exercised (an exception raised by the implementation is a
+    # recorded rejection, not an observation: those records are counted in `raised`)
+    need = {"fam_scaled": 500, "fam_far": 300, "fam_qframes": 300, "fam_ovrtrue": 100, "fam_containers": 300,
+            "fam_histories": 300, "fam_voxels": 100, "fam_densities": 100, "small_unit": 100, "xf": 300,
+            "frames_rational_rotation": 300, "frames_fractional_origin": 300}
+    need.update({"variant_tri/" + v: 5 for v in TRI_VARIANTS})
+    need.update({"variant_mesh/" + v: 5 for v in MESH_VARIANTS + HISTORIES})
+    need.update({"variant_mesh/oc_" + v: 3 for v in OC_VARIANTS})
+    need.update({"variant_tri/oc_" + v: 3 for v in OC_VARIANTS if v not in ("list", "tuple")})
+    thin = {k: n.get(k, 0) for k, v in need.items() if n.get(k, 0) < v}
+    # (a guard protects a clean verdict from vacuity; counts that depend on what the implementation reported
+    # may be emptied by the very defect that the rejections already report)
+    if V.violations:
+        thin = {k: v for k, v in thin.items() if k.startswith("fam_") or k == "small_unit"}
+    if thin or len(T.sets["scales"]) < len(SCALES) + 1 or len(T.sets["origins"]) < len(ORGS) + 5 \
+            or len(T.sets.get("qrot", ())) != len(QROT) or max(T.sets["voxel_faces"]) < 60:
+        raise MachineryError("audit families nearly empty: %s (scales %d, origins %d, rational rotations %d)"
+                             % (thin, len(T.sets["scales"]), len(T.sets["origins"]), len(T.sets.get("qrot", ()))))
     grid4 = ("every 4-subset of the 64 lattice points {0..3}^3 in one vertex order (C(64,4) = 635376; each flat one "
              "again with a companion tetrahedron), both transposition pillows over every ordered triple of {0..3}^3 "
              "(2 x 4^9 = 524288, with a companion tetrahedron), every ordered 4-tuple over {0,1,2}^3 (3^12 = 531441), "
@@ -584,6 +1018,20 @@ def main(argv):
         "traces_validated_against_impl": n["obs"],
         "records": n["records"],
         "records_per_family": B.fam,
+        "audit_families": {k[4:]: v for k, v in sorted(n.items()) if k.startswith("fam_")},
+        "audit_variants_observed": {k[8:]: v for k, v in sorted(n.items()) if k.startswith("variant_")},
+        "audit_units_of_length": sorted("%d/%d" % x for x in T.sets["scales"]),
+        "audit_origins": sorted(T.sets["origins"]),
+        "audit_bodies_with_abs_volume_below_1e-13": n.get("tiny", 0),
+        "audit_observations_with_unit_of_length_below_5e-5": n.get("small_unit", 0),
+        "audit_transform_inertia_direct_calls": 2 * n.get("xf", 0),
+        "audit_frames_rational_rotation": n.get("frames_rational_rotation", 0),
+        "audit_frames_fractional_origin": n.get("frames_fractional_origin", 0),
+        "audit_distinct_rational_rotations": len(T.sets.get("qrot", ())),
+        "audit_voxel_solid_faces_max": max(T.sets["voxel_faces"]),
+        "records_where_the_implementation_raised": n.get("raised", 0),
+        "rejections_by_predicate": {k[12:]: v for k, v in sorted(n.items()) if k.startswith("rejected_as_")},
+        "rejections_by_family": {k[12:]: v for k, v in sorted(n.items()) if k.startswith("rejected_in_")},
         "api_observations": {"triangles.mass_properties+triangles.area": n.get("obs_" + API_TRI, 0),
                              "Trimesh properties+moment_inertia_frame": n.get("obs_" + API_MESH, 0)},
         "face_areas_compared": n["faces"],
@@ -612,6 +1060,17 @@ def main(argv):
             "10000 + 3000 seeded tetrahedra of the {0..3}^12 grid / its translates, 2500 seeded pillows, "
             "composite surfaces (cubes, boxes, octahedra, L-prisms, genus-1 ring, hollow / overlapping / "
             "multi-body shells, bipyramids) at 6 offsets, 600 random pairs of tetrahedra"),
+        "audit_enumerated": (
+            "block 'audit' (both tiers; thorough: more seeded tetrahedra, every named shape at 3 offsets / with every "
+            "(origin, unit) pair): the named shapes and seeded tetrahedra handed over in %d units of length (2^-30 .. "
+            "2^30, 10^-6 .. 10^6, 1/3, 7) and about %d other origins (|org| <= 128 with dyadic units, <= 16 with decimal "
+            "ones); frames with the 40 rational rotations from integer quaternions of norm^2 3 / 5 and origins on the "
+            "half / quarter lattice; inertia.transform_inertia called directly (3x3 / 4x4, with / without parallel "
+            "axis) on every third full record of every family; symmetric shapes with the override at their true "
+            "centre; %d triangle-array variants, %d mesh-construction variants, %d override containers, %d "
+            "histories on one mesh object; random voxel solids in 3x3x3 / 4x4x2 / 2x3x4 grids; densities 0, 1000, "
+            "4096, 7800, 1/1024, 3/1024"
+            % (len(SCALES), len({o for o, _ in FAR}), len(TRI_VARIANTS), len(MESH_VARIANTS), len(OC_VARIANTS), len(HISTORIES))),
         "unisolvence_note": (
             "Summed over the four faces of a tetrahedron each of the ten integrals, as computed and as defined, "
             "is a polynomial of degree <= 3 in each of the 12 coordinates, so agreement on the tensor grid "
@@ -631,7 +1090,12 @@ def main(argv):
         "samples": samples[:4],
     }
     return V.finish("model_checking", cov, assumptions=[
-        "lattice coordinates in {-3..9}: the implementation's doubles are exact up to the final divisions",
+        "lattice coordinates in {-3..9}: the implementation's doubles are exact up to the final divisions; in the "
+        "audit families the same surfaces are handed over as (S + org) * sc, |org| <= 128, sc in 2^-30 .. 2^30 and "
+        "decimal factors, and read back in the lattice unit (translation covariance and homogeneity are RefLaws of "
+        "the module); coordinates far from the origin relative to the size of the body (>= 1e3 x) are not "
+        "enumerated: the cancellation error of the second moments grows like distance^3 and the property only "
+        "says 'up to floating-point rounding'",
         "a value is accepted when within 1e-9 (relative) of the exact rational computed by TLC",
         "inertia tensor reported under a centre-of-mass override, and centre / inertia of surfaces with zero "
         "volume but non-zero moments, are not constrained (the property does not define them)",
